@@ -118,4 +118,18 @@ func cmdVerify(args []string) {
 	fmt.Printf("TOTAL %d/%d discharged in %.1fs\n", ok, total, time.Since(t0).Seconds())
 }
 
-func cmdCheck(args []string) int { return 2 }
+func cmdCheck(args []string) int {
+	fs := flag.NewFlagSet("check", flag.ExitOnError)
+	repo := fs.String("repo", "/repo", "repository root")
+	verif := fs.String("verif", "/verif", "verif root")
+	prop := fs.String("p", "", "property id")
+	tier := fs.String("tier", "quick", "quick|thorough")
+	par := fs.Int("par", 16, "parallel solver processes")
+	fs.Parse(args)
+	if t := os.Getenv("VERIF_TIER"); t != "" && *tier == "" {
+		*tier = t
+	}
+	seed := 0
+	fmt.Sscanf(os.Getenv("VERIF_SEED"), "%d", &seed)
+	return vc.RunCheck(vc.CheckOpts{Repo: *repo, Verif: *verif, Prop: *prop, Tier: *tier, Seed: seed, Par: *par})
+}
